@@ -98,6 +98,26 @@ func TestVerifMirrorBadTarget(t *testing.T) {
 		}
 		time.Sleep(5 * time.Millisecond)
 	}
+	// ... and for long: more datagrams than the mirror's queues hold together (nobody takes them any more once the mirror
+	// worker has given up)
+	for k := 0; k < 3200; k++ {
+		for w := 0; qlen() > 500 && w < 600; w++ {
+			time.Sleep(5 * time.Millisecond)
+		}
+		if qlen() > 500 {
+			break // the worker does not come back
+		}
+		switch proto {
+		case "ipfix":
+			b := ipfixBuffer.Get().([]byte)
+			n := copy(b, []byte(fmt.Sprintf("datagram %04d after the mirror has gone", k)))
+			ipfixUDPCh <- IPFIXUDPMsg{raddr, b[:n]}
+		default:
+			b := sFlowBuffer.Get().([]byte)
+			n := copy(b, []byte(fmt.Sprintf("datagram %04d after the mirror has gone", k)))
+			sFlowUDPCh <- SFUDPMsg{raddr, b[:n]}
+		}
+	}
 	deadline := time.Now().Add(3 * time.Second)
 	for qlen() > 0 && time.Now().Before(deadline) {
 		time.Sleep(5 * time.Millisecond)
@@ -130,6 +150,7 @@ func TestVerifMirror(t *testing.T) {
 	} else {
 		opts.IPFIXUDPSize = other
 	}
+	opts.Verbose = os.Getenv("VERIF_VERBOSE") == "1" // "-verbose": what is logged goes nowhere here, but it is computed
 	mCache = ipfix.GetCache("")
 
 	// the third-party collector: a UDP socket on the mirror port (so that the port is open) and a raw
